@@ -39,7 +39,8 @@ ASSUMPTIONS = [
     "library's own ternary accumulators are meaningful; binary +-1 holds {-1,+1}",
     "the accumulator is sized for N = prod(kernel_shape[:-1]) terms, +1 term of the multiplier output type when "
     "use_bias (as the code sizes it)",
-    "operand domain as in C16 (fixed 0 <= int_bits <= bits - sign, po2 max_value a power of two)",
+    "operand domain as in C16 (fixed 0 <= int_bits <= bits - sign, po2 max_value a power of two); the accumulator "
+    "cases additionally hold fixed operands with -5 <= int_bits < 0 (multiplier outputs with negative integer width)",
     "Add of more than two operands adds one bit irrespective of the count: observed, not enforced; Average is held "
     "to the Maximum-family oracle (result holds every operand value), the half-LSB of a true average is an observation",
     "power-of-two operands never produce 0, a result type identical to a po2 operand (Maximum of equal types) is "
